@@ -14,7 +14,7 @@ static Case decode(const uint8_t *data, size_t size) {
     int64_t own = 0x020000000000LL | fdp.ConsumeIntegralInRange<int>(1, 0xFFFFFF);
     c.cfg = {mtu, fdp.ConsumeIntegralInRange<int>(0, 1), own, fdp.ConsumeIntegralInRange<int>(0, 1)};
     auto blob = [&](size_t maxn) { size_t n = fdp.ConsumeIntegralInRange<size_t>(0, maxn); auto s = fdp.ConsumeBytes<uint8_t>(n); return s; };
-    c.blobs = {blob(40), blob(40), blob(300), blob(80), blob(64)};
+    c.blobs = {blob(40), blob(40), blob(300), blob(1100), blob(64)};
     Mac ownm = mac_from_u64((uint64_t)own);
     int n = fdp.ConsumeIntegralInRange<int>(0, 64);
     static const int counts[] = {0, 1, 2, 3, 4, 5, 6, 6};
@@ -23,9 +23,10 @@ static Case decode(const uint8_t *data, size_t size) {
     static const int qoffs[] = {0, 1, 541, 542, 543, 0xFFFF};
     for (int i = 0; i < n && fdp.remaining_bytes() > 0; i++) {
         Op o;
-        int k = fdp.ConsumeIntegralInRange<int>(0, 13);
+        int k = fdp.ConsumeIntegralInRange<int>(0, 14);
+        if (k == 14) { static const int ty[] = {0x0E, 0x11, 0x13}; o.kind = 14; o.a = {ty[fdp.ConsumeIntegralInRange<int>(0, 2)], fdp.ConsumeIntegralInRange<int>(1, 0xFFFF), fdp.ConsumeIntegralInRange<int>(0, 3)}; c.ops.push_back(o); continue; }
         if (k == 13) { o.kind = 13; o.a = {fdp.ConsumeIntegralInRange<int>(1, 40), fdp.ConsumeIntegralInRange<int>(0, 0xFFFF), fdp.ConsumeIntegralInRange<int>(0, 1)}; c.ops.push_back(o); continue; }
-        if (k == 12) { o.kind = 12; o.a = {fdp.ConsumeIntegralInRange<int>(0, 500), fdp.ConsumeIntegralInRange<int>(0, 1000), fdp.ConsumeIntegralInRange<int>(0, 1)}; c.ops.push_back(o); continue; }
+        if (k == 12) { o.kind = 12; o.a = {fdp.ConsumeIntegralInRange<int>(0, 1200), fdp.ConsumeIntegralInRange<int>(0, 1000), fdp.ConsumeIntegralInRange<int>(0, 1), fdp.ConsumeIntegralInRange<int>(1, 48)}; c.ops.push_back(o); continue; }
         if (k == 0) { o.kind = 10; c.ops.push_back(o); continue; }
         if (k == 1) { o.kind = 11; o.a = {fdp.ConsumeIntegralInRange<int>(0, 120000)}; c.ops.push_back(o); continue; }
         FrameT t;
